@@ -88,6 +88,48 @@ func RunMutant(repo, id string, m Mutant) MutantResult {
 	return res
 }
 
+// RunMutantAll applies m once and runs every property in ids on the mutated
+// program; returns the non-discharged reports per property, or a status if the
+// mutant could not be applied / does not type-check.
+func RunMutantAll(repo string, ids []string, m Mutant) (map[string][]string, string) {
+	path := filepath.Join(repo, m.File)
+	src, err := os.ReadFile(path)
+	if err != nil {
+		return nil, "skipped " + err.Error()
+	}
+	if strings.Count(string(src), m.Old) != 1 {
+		return nil, fmt.Sprintf("skipped: anchor text occurs %d times in %s", strings.Count(string(src), m.Old), m.File)
+	}
+	mutated := strings.Replace(string(src), m.Old, m.New, 1)
+	prog, err := kit.Load(kit.LoadOptions{Dir: repo, Overlay: map[string][]byte{path: []byte(mutated)}})
+	if err != nil {
+		return nil, "broken: " + err.Error()
+	}
+	out := map[string][]string{}
+	for _, id := range ids {
+		ctx := kit.NewCtx(id, prog)
+		func() {
+			defer func() {
+				if r := recover(); r != nil {
+					out[id] = append(out[id], fmt.Sprintf("%s checker panic: %v", id, r))
+				}
+			}()
+			Registry[id].Run(ctx)
+		}()
+		for _, r := range ctx.Rules {
+			if r.N < r.Min {
+				out[id] = append(out[id], fmt.Sprintf("%s vacuous (%d < %d)", r.ID, r.N, r.Min))
+			}
+		}
+		for _, o := range ctx.Obls {
+			if o.Verdict != kit.Discharged {
+				out[id] = append(out[id], fmt.Sprintf("%s %s %s: %s", o.Rule, o.Verdict, o.Pos, o.Why))
+			}
+		}
+	}
+	return out, ""
+}
+
 // RunMutants runs all mutants of id in sub-processes (one load each, at most
 // par at a time) and returns the results. base are the reports already present
 // on the unmutated tree (known findings): a mutant is killed only by a new report.
